@@ -48,6 +48,13 @@ CHECKS = {
         note="Trusted: std::vector<child_t> as capacity-3 array, shared_ptr as raw pointer, make_shared as new; induction over tree height; flat type abstraction + stub TypeChecker environment for the clause-level jobs (areAssignmentCompatible / areEquivalent arbitrary). Type arity <= 3.",
         technique="one-level induction steps on sliced real code (type.cpp members, typechecker.cpp clauses) with ghost summaries, assume/call/assert harnesses in CBMC; native replay through parse_XTA",
     ),
+    "C13": dict(
+        category="proof",
+        text="The REAL TypeChecker::isCompileTimeComputable (result <=> every symbol the expression may read is a function or in the computable set, and no random draw), the REAL CompileTimeComputableValues members (a variable enters the set iff its type is constant; an instance parameter iff const, non-reference, non-double), the REAL checkType RANGE branch (array sizes, integer ranges, scalar-set sizes: a non-computable bound is an error, computable integer bounds are accepted), the REAL initialiser chain of visitVariable, the REAL instantiation-argument rules (value / const-reference parameter needs a computable argument) and the REAL visitProcess (a free parameter in the restricted set is an error) are executed on symbolic inputs with the callee contracts as ghosts. Builder side: the REAL StatementBuilder::collectDependencies worklist is checked to return a set closed under `variable -> reads of its initialiser` (any chain length) - bounded stand-in over a universe of 4 symbols.",
+        design_ref="DESIGN.md section 4, C13",
+        note="Trusted: flat type abstraction, bit-mask std::set<symbol_t>, stub TypeChecker environment; collect_possible_reads by contract (its one-level proof is C11's c11_collect_reads). Bounded: collectDependencies (4 symbols). Not under contract: checkType's recursion reaching every RANGE of a used type; isDefaultInt.",
+        technique="sliced real functions / switch clause / if-chains executed on symbolic inputs with ghost contracts in CBMC (assume/call/assert); one bounded unwinding stand-in; native replay through parse_XTA",
+    ),
 }
 
 NOT_APPLICABLE = {
